@@ -410,7 +410,7 @@ def shapes(tier, seed):
         for z in (zs if tier == "thorough" else zs[:1]):
             out.append(Shape(f"ansatz/{which}/{2 * nm_}q/history/zero{z}", h_ansatz,
                              dict(which=which, n_mos=nm_, n_electrons=ne_, spin=0, utd=False, signs=(1, -1), history=(z, None)), modules=MODS, max_paths=64))
-    for picks in ("0,1",) + (("2,5", "3") if tier == "thorough" else ()):
+    for picks in ("0,1", "2,5") + (("3",) if tier == "thorough" else ()):
         out.append(Shape(f"ansatz/ADAPT/6q/{picks}/utd0", h_ansatz, dict(which=f"ADAPT:{picks}", n_mos=3, utd=False, signs=(1, -1)), modules=MODS, max_paths=64))
     out.append(Shape("ansatz/UCC1", h_ansatz, dict(which="UCC1"), modules=MODS))
     out.append(Shape("ansatz/UCC3", h_ansatz, dict(which="UCC3"), modules=MODS))
